@@ -55,7 +55,7 @@ ASSUMPTIONS = [
 ]
 REAL = ["core_tasks.recover_pending_invocations / recover_running_invocations", "Mem/SQLite recovery scans", "register_runner_heartbeats / active runner queries", "reroute_invocations", "brokers"]
 STUBBED = ["clock", "thread scheduling", "uuid4"]
-PROBES = ["pending_scan_nonempty", "running_scan_nonempty", "boundary_instant", "never_heartbeated_owner", "parent_reported_heartbeat", "owner_moved_between_scan_and_transition", "recovery_run_raised", "fresh_reclaim_during_recovery"]
+PROBES = ["pending_scan_nonempty", "running_scan_nonempty", "boundary_instant", "never_heartbeated_owner", "parent_reported_heartbeat", "owner_moved_between_scan_and_transition", "recovery_run_raised", "fresh_reclaim_during_recovery", "concurrent_poll_claimed_recovered"]
 
 
 def plan(tier: str) -> list[dict]:
@@ -360,13 +360,14 @@ def _run_race(seed: int, stack: str, replay: dict | None) -> dict:
     dead_min = 0.5
     schedule = replay.get("schedule") if replay else None
     viol: list[dict] = []
-    with World(seed, stack, ["v", "o", "x"], policy=policy, policy_arg=parg, schedule=schedule, trace_files=MEM_TRACE if stack == "mem" else None, max_steps=40000, conf={"max_pending_seconds": limit, "runner_considered_dead_after_minutes": dead_min, "cached_status_time": 0.0}) as w:
+    with World(seed, stack, ["v", "o", "x", "p"], policy=policy, policy_arg=parg, schedule=schedule, trace_files=MEM_TRACE if stack == "mem" else None, max_steps=40000, conf={"max_pending_seconds": limit, "runner_considered_dead_after_minutes": dead_min, "cached_status_time": 0.0}) as w:
         sim = w.sim
         tasks = w.register(simtasks.add)
         octx = RunnerContext(runner_cls="SimRunner", runner_id="owner")
         xctx = RunnerContext(runner_cls="SimRunner", runner_id="other")
         vctx = RunnerContext(runner_cls="SimRunner", runner_id="recovery")
-        app_o, app_v, app_x = w.apps["o"], w.apps["v"], w.apps["x"]
+        app_o, app_v, app_x, app_p = w.apps["o"], w.apps["v"], w.apps["x"], w.apps["p"]
+        pctx = RunnerContext(runner_cls="SimRunner", runner_id="poller")
         ids = [str(tasks["o"](i, 0).invocation_id) for i in range(n)]
         # the owner claims everything (and starts it, for the running variant), then goes silent
         while app_o.broker.retrieve_invocation() is not None:
@@ -387,6 +388,20 @@ def _run_race(seed: int, stack: str, replay: dict | None) -> dict:
             else:
                 actions.append((tgt, rng.choice(["finish", "fail-retry"])))
         rec: dict[str, Any] = {"raised": None}
+        # a healthy runner keeps polling the queue while the recovery run is under way (it keeps what it claims)
+        n_polls = rng.choice([0, 2, 4, 6])
+        poll_gaps = [rng.uniform(0.0, 0.01 if stack == "mem" else 0.004) for _ in range(n_polls)]
+
+        def poller_main() -> None:
+            for gap in poll_gaps:
+                sim.sleep(gap)
+                try:
+                    got = list(app_p.orchestrator.get_invocations_to_run(1, pctx))
+                except Exception as e:  # noqa: BLE001
+                    rec["poll_raised"] = f"{type(e).__name__}: {e}"
+                    return
+                if got:
+                    sim.bump("probe.concurrent_poll_claimed_recovered")
 
         def recovery_main() -> None:
             try:
@@ -418,7 +433,7 @@ def _run_race(seed: int, stack: str, replay: dict | None) -> dict:
                 except Exception:  # noqa: BLE001  losing against the recovery run is fine
                     pass
 
-        w.run([("v", "main", recovery_main), ("o", "main", owner_main)])
+        w.run([("v", "main", recovery_main), ("o", "main", owner_main)] + ([("p", "main", poller_main)] if n_polls else []))
         common = w.result_common()
         st = common["stats"]
         if sim.abort_reason:
@@ -441,7 +456,7 @@ def _run_race(seed: int, stack: str, replay: dict | None) -> dict:
                     recovered.append(inv)
                     pred = evs[k - 1]
                     # owner moved between scan and transition?
-                    if any(x["requester"] in ("owner", "other") and x["ts"] > t_stuck for x in evs[:k]):
+                    if any(x["requester"] in ("owner", "other", "poller") and x["ts"] > t_stuck for x in evs[:k]):
                         sim.bump("probe.owner_moved_between_scan_and_transition")
                         st["probe.owner_moved_between_scan_and_transition"] = st.get("probe.owner_moved_between_scan_and_transition", 0) + 1
                     if e["status"] == "PENDING_RECOVERY" and e["ts"] - pred["ts"] < limit:
@@ -464,7 +479,7 @@ def _run_race(seed: int, stack: str, replay: dict | None) -> dict:
                     if s_ != "SUCCESS" and not any(x["status"] in ("SUCCESS",) for x in evs):
                         # it may legitimately be held by the third runner (fresh claim)
                         rec_ = app_x.orchestrator.get_invocation_status_record(inv)
-                        if rec_.runner_id != "other":
+                        if rec_.runner_id not in ("other", "poller"):
                             viol.append({"signature": f"C04/race/{stack}/recovered-not-completable/{s_}", "message": f"{w.alias(inv)} was recovered but a healthy runner polling afterwards could not complete it: status {s_}, owner {rec_.runner_id}"})
         common.update(
             {
